@@ -641,3 +641,19 @@ def unlocked_writers(ctx, effect, owner_cls, lock):
         if not f.name.startswith("_") or not callers or outside:
             out.append((f, outside))
     return out, W
+
+
+def const_param_blocks(ctx, call_site, callee, inner_site):
+    """inner_site (inside callee) is guarded by a parameter of callee being truthy/falsy, and
+    call_site passes (or defaults to) a constant of the other truthiness: the edge
+    call_site -> callee -> inner_site is infeasible."""
+    for n in ctx.nodes_of(callee, inner_site.node):
+        blocked = False
+        for form, pol in guard_forms(ctx, callee, n):
+            if form in callee.params + callee.kwonly:
+                a = ctx.arg_for(call_site, callee, form)
+                if isinstance(a, ast.Constant) and bool(a.value) != pol:
+                    blocked = True
+        if not blocked:
+            return False
+    return True
